@@ -72,6 +72,12 @@ def corpus():
              prog=[['add', 3, 1, {'a': 0}], ['commit'], ['set', 3, 1, {'a': 1}], ['commit'],
                    ['add', 0, 1, {'a': 1}], ['flush'], ['add', 1, 1, {}], ['flush'], ['rollback'],
                    ['add', 0, 1, {'a': 2}], ['commit']]),
+        # a relationship touched without net change (linked and unlinked again before the flush; a tag re-pointed to
+        # the parent it has) and nothing else: no transaction record
+        dict(cfg=dict(shape='blog', strategy='validity'),
+             prog=[['add', 0, 1, {'a': 1}], ['add', 2, 1, {'a': 1}], ['add', 1, 1, {'a': 0}], ['tagto', 1, 1], ['commit'],
+                   ['link', 1, 1], ['unlink', 1, 1], ['commit'], ['tagto', 1, 1], ['commit'],
+                   ['link', 1, 1], ['commit'], ['unlink', 1, 1], ['link', 1, 1], ['commit']]),
         # the manager-level switch options['versioning'] turned off before a commit and on again afterwards (judged on
         # the observations only): the next transaction gets a record of its own
         dict(cfg=dict(shape='blog', strategy='validity', twin=False), obs_only=True,
